@@ -44,3 +44,5 @@ P['C19'] = dict(
     level_note='Bounds: packet bodies <= 6 (quick) / 9 (thorough) bytes per decoder. UTF-8 content of received strings and at-most-once rules for properties are not part of the oracle (the reference is lenient there).',
     assumptions=['reference decoder harness/ref_mqtt.hpp written by hand from MQTT 5.0 sections 2.1-2.2, 3.1-3.15'],
     jobs=_dh_jobs())
+
+P['SMOKE'] = dict(disabled=True, level_text='', level_note='', jobs=[dict(name='smoke', tu='harness/w_smoke.cpp', entry='h_smoke', engine='B', clock=True, reach=['end'])])
